@@ -43,6 +43,7 @@ THEOREMS = [
     "Verif.C06.slice_window",
     "Verif.C06.kwf_starts_sorted",
     "Verif.C06.getitem_all",
+    "Verif.C06.down_entry_sum",
 ]
 RULE = (
     "kymographs and scans built from generated info waves (P<=5 pixels, <=6 lines/frames, k<=3 samples per pixel, "
